@@ -8,6 +8,7 @@ From SU.Model Require Import PhaseAcc Adsr.
 From SU.Spec Require Import AdsrSpec.
 From SU.Proofs Require Import AdsrLevelProofs AdsrCurveProofs.
 From SU.Proofs Require Import AdsrTraceProofs.
+From SU.Proofs Require Import AdsrTrace2Proofs.
 Open Scope R_scope.
 
 (** for every sample rate and every sequence of gate-on, gate-off, tick and parameter
@@ -246,6 +247,46 @@ Theorem C01_ex_release_state :
   R32 (a_value (adsr_step s ATick)) < R32 (a_value s).
 Proof. exact ex_release_state. Qed.
 
+(** "the level at which the phase started": a gate-on that starts an attack latches the current output as the attack start level and changes nothing audible *)
+Theorem C01_gate_on_latches : forall s,
+  a_von (adsr_step s AGateOn)
+    = match a_state s with Attack => a_von s | _ => a_value s end /\
+  a_voff (adsr_step s AGateOn) = a_voff s /\
+  a_value (adsr_step s AGateOn) = a_value s.
+Proof. exact gate_on_latches. Qed.
+
+(** a gate-off that starts a release latches the current output as the release start level *)
+Theorem C01_gate_off_latches : forall s,
+  a_voff (adsr_step s AGateOff)
+    = match a_state s with Release | AtRest => a_voff s | _ => a_value s end /\
+  a_von (adsr_step s AGateOff) = a_von s /\
+  a_value (adsr_step s AGateOff) = a_value s.
+Proof. exact gate_off_latches. Qed.
+
+(** ticks never move the latched levels *)
+Theorem C01_tick_keeps_levels : forall s,
+  a_von (adsr_step s ATick) = a_von s /\ a_voff (adsr_step s ATick) = a_voff s.
+Proof. exact tick_keeps_levels. Qed.
+
+(** so throughout an attack the start level is the output at the gate-on *)
+Theorem C01_attack_start_level : forall s ops, a_state s <> Attack -> ~ In AGateOn ops ->
+  a_von (fold_left adsr_step (AGateOn :: ops) s) = a_value s.
+Proof. exact attack_start_level. Qed.
+
+(** and throughout a release the output at the gate-off *)
+Theorem C01_release_start_level : forall s ops,
+  a_state s <> Release -> a_state s <> AtRest -> ~ In AGateOff ops ->
+  a_voff (fold_left adsr_step (AGateOff :: ops) s) = a_value s.
+Proof. exact release_start_level. Qed.
+
+(** fidelity for EVERY reachable attack / release state (and every in-sync decay state), including the first sample after a gate event *)
+Theorem C01_trace_fidelity_any : forall fs ops,
+  let s := adsr_run fs ops in
+  timed (a_state s) = true -> (a_state s = Decay -> synced s) ->
+  Rabs (R32 (a_value s) - ideal s) <= 0.005 /\
+  Rabs (R32 (a_value s) - ideal s) <= 45 / 10000 * span s + 6 / 2097152.
+Proof. exact C01_trace_fidelity_any. Qed.
+
 Print Assumptions C01_range.
 Print Assumptions C01_value_changes_only_on_tick.
 Print Assumptions C01_synced.
@@ -274,3 +315,9 @@ Print Assumptions C01_ex_attack_state.
 Print Assumptions C01_ex_decay_state.
 Print Assumptions C01_ex_sustain_state.
 Print Assumptions C01_ex_release_state.
+Print Assumptions C01_gate_on_latches.
+Print Assumptions C01_gate_off_latches.
+Print Assumptions C01_tick_keeps_levels.
+Print Assumptions C01_attack_start_level.
+Print Assumptions C01_release_start_level.
+Print Assumptions C01_trace_fidelity_any.
